@@ -50,13 +50,13 @@ LEVEL_TEXT = ('Every printed path of every bounded configuration is parsed '
               'sequential reference; nothing is sampled.')
 LEVEL_NOTE = ('Trusted: the sequential reference (direct Python calls on '
               'vfx.flagmod), mc.canon. Bounds: shapes N<=3, sequences <=4 '
-              '(quick) / 5 (thorough).')
+              '; the thorough tier enumerates path shapes up to N=3.')
 
 KEYS = ['a', 'a b', 'k]', '[', '.', 'é', '0', '-1', '', 0, 1, 10]
 
 
 def bounds(tier):
-  return dict(n=2 if tier == 'quick' else 3, seq=4 if tier == 'quick' else 5)
+  return dict(n=2 if tier == 'quick' else 3, seq=4)
 
 
 def mk(cls, fn):
